@@ -519,7 +519,59 @@ def job_point_array(cfg):
     return res
 
 
+def job_pressure_micro(cfg):
+    """pressure on the planar faces of the unit cube modelled in SMALL length units (coordinates x 2^-20 ~ 1e-6: a micro-scale part in metres): the
+    resultant is p x area along the face normal, whatever the absolute size of the raw (un-normalised) face normals.  Symbolic pressure; the
+    obligation is relative to the face area s^2."""
+    from EasyFEA import Simulations
+
+    res = JobResult(cfg)
+    c = new_context()
+    facade.install()
+    et, axis, value = cfg["elem"], cfg["axis"], cfg["value"]
+    s_ = 2.0 ** -20
+    mesh = simlib.transform_mesh(simlib.gmsh_mesh(et, layers=1), np.eye(3) * s_)
+    key = f"elastic {et} pressure on the face x{axis} = {value} of the cube scaled by 2^-20"
+    res.functions |= {"_Simu.add_pressureLoad", "_Simu.__Bc_pressureload", "Mesh.Get_normals", "_GroupElem.Get_normals_e_pg", "_linalg.Normalize", "Geoms._utils.Normalize", "_Simu.Bc_vector_Neumann"}
+    p_ = c.var("p", -1, 1, shadow=Fraction(3, 4))
+    res.symbols = 1
+    fn = face_nodes(mesh, axis, value * s_)
+
+    def run(pv, symbolic):
+        simu = Simulations.Elastic(mesh, make_material("iso", 3), verbosity=False)
+        simu.add_pressureLoad(fn, pv)
+        F = simu.Bc_vector_Neumann()
+        F = F.toarray() if hasattr(F, "toarray") else F
+        return np.asarray(F, dtype=object if symbolic else float).reshape(mesh.Nn, 3)
+
+    mark = c.mark()
+    with facade.symbolic():
+        Fn = run(p_, True)
+    pcs = c.pc_since(mark)
+    res.paths, res.path_conditions = 1, len(pcs)
+    area = Fraction(s_) ** 2
+
+    def replay(env):
+        pv = float(as_sym(p_).eval({kk: float(v) for kk, v in {**c.shadow, **(env or {})}.items()}))
+        R = run(pv, False).sum(axis=0) / float(area)
+        tang = np.delete(R, axis)
+        return bool(abs(abs(R[axis]) - abs(pv)) > 1e-9 or float(np.abs(tang).max()) > 1e-9), {"pressure": pv, "resultant_over_face_area": R.tolist(), "expected_magnitude": abs(pv)}
+
+    totax = sum((as_sym(Fn[n, axis]) for n in range(mesh.Nn)), as_sym(0))
+    sgn = 1 if (totax.shadow() * as_sym(p_).shadow()) >= 0 else -1
+    for d in range(3):
+        tot = sum((as_sym(Fn[n, d]) for n in range(mesh.Nn)), as_sym(0)) / area
+        res.record(f"{key}: resultant[{d}] / area = +-p n[{d}]", prove_abs_le(tot - (p_ * sgn if d == axis else 0), TOL, pcs, key), replay, key=f"{key}: pressure resultant",
+                   sample=None if d else {"config": key, "obligation": "for all pressures p in [-1,1]: |sum_n F_n / s^2 - (+-p) n| <= 1e-10 on a face of area s^2 = 2^-40"})
+    tw = prove_abs_le(sum((as_sym(Fn[n, axis]) for n in range(mesh.Nn)), as_sym(0)) / area - 2 * p_ * sgn, TOL, pcs, "twin")
+    res.twin(f"{key} twin", tw.status == "cex")
+    res.stubs |= facade.USED_STUBS
+    return res
+
+
 def job(cfg):
+    if cfg.get("load") == "pressure_micro":
+        return job_pressure_micro(cfg)
     if cfg.get("load") == "point_array":
         return job_point_array(cfg)
     return job_beam(cfg) if cfg["sim"] == "beam" else job_continuum(cfg)
@@ -560,6 +612,8 @@ def main():
         configs.append({"sim": "elastic", "elem": et, "load": load, "selection": "repeated", "axis": 0, "value": 1.0})
     for et in (("TRI3", "PRISM6") if tier == "quick" else ("TRI3", "QUAD8", "TETRA4", "PRISM6")):
         configs.append({"sim": "elastic", "elem": et, "load": "point_array"})
+    for et, axis, value in ((("TETRA4", 0, 1.0), ("HEXA8", 2, 1.0)) if tier == "quick" else (("TETRA4", 0, 1.0), ("HEXA8", 2, 1.0), ("HEXA8", 1, 0.0), ("PRISM6", 2, 0.0), ("PRISM6", 0, 1.0), ("TETRA10", 1, 1.0))):
+        configs.append({"sim": "elastic", "elem": et, "load": "pressure_micro", "axis": axis, "value": value})
     for et in (("TRI3", "HEXA8") if tier == "quick" else ("TRI3", "TRI6", "QUAD4", "TETRA4", "HEXA8")):
         configs.append({"sim": "elastic", "elem": et, "load": "volume_poly", "selection": "face", "axis": 1, "value": 1.0, "merged": True})
         configs.append({"sim": "thermal", "elem": et, "load": "volume_poly", "selection": "face", "axis": 1, "value": 1.0, "merged": True})
